@@ -104,6 +104,68 @@ def run(rep):
                 rep.ob("R3-offset-is-char-boundary", key, not probs, f.file, tt["ln"],
                        "; ".join(sorted(set(probs)))[:600] + " — Span::new(..).unwrap() in token::span panics on an offset that is not a char boundary")
     rep.floor("R3-offset-is-char-boundary", 30, n3)
+    # ---- R3b / R3c: an end offset is start + the width of the text that starts there ----------------------------------------
+    # (added after F19/F20 and seed C16b showed that "every leaf of the offset expression is boundary-ish" accepts `p + <width of
+    # some other character>`, `p + <length of some other string>` and `p + 1` next to a multi-byte character)
+    from lib import boundary2
+    R = boundary2.Resolver(F)
+    reviewed = sites.load_sites("spec/c16_offsets.txt")
+    used = set()
+    n3b = n3c = 0
+    for f in sorted(F.fns.values(), key=lambda x: x.name):
+        if f.crate != "sway_parse" or not f.file.endswith("sway-parse/src/token.rs"):
+            continue
+        if f.d.get("exp"):
+            continue
+        k_one = k_add = 0
+        for bi, tt in f.calls():
+            if (tt.get("fp", "")) == "sway_parse::token::span_one":
+                k_one += 1
+                key = f"{f.name}|span_one#{k_one}"
+                ok, why = boundary2.paired(R, f, tt["a"][1], tt["a"][2])
+                if ok:
+                    n3b += 1
+                    rep.ob("R3b-width-belongs-to-the-character-at-the-start", key, True, f.file, tt["ln"], "")
+                elif key in reviewed:
+                    used.add(key)
+                    n3c += 1
+                    rep.ob("R3c-reviewed-offset-arithmetic", key, True, f.file, tt["ln"], "reviewed: " + reviewed[key])
+                else:
+                    rep.ob("R3b-width-belongs-to-the-character-at-the-start", key, False, f.file, tt["ln"],
+                           f"span_one(l, p, c) spans `p .. p + c.len_utf8()`: p and c must be the position and the character of the same stream item, but {why}; "
+                           "if c is wider or narrower than the character at p the end is not a char boundary (or lies past the end) and Span::new(..).unwrap() panics")
+        for bi, si, st in f.stmts():
+            r = st["r"]
+            if not (r["k"] == "bin" and r["op"].startswith("Add") and r.get("ty") == "usize"):
+                continue
+            k_add += 1
+            key = f"{f.name}|add#{k_add}"
+            ops = r["o"]
+            lens = []
+            for i_, o in enumerate(ops):
+                for a in R.resolve(f, o):
+                    if a[0] == "call" and isinstance(a[4], dict) and (a[4].get("fp", "")).endswith("len_utf8") and not a[3]:
+                        lens.append((i_, a[4]))
+            if lens:
+                i_, call = lens[0]
+                ok, why = boundary2.paired(R, f, ops[1 - i_], call["a"][0])
+                if ok:
+                    n3b += 1
+                    rep.ob("R3b-width-belongs-to-the-character-at-the-start", key, True, f.file, st.get("ln", f.lo), "")
+                    continue
+            else:
+                why = "the addend is not the width of a stream character"
+            if key in reviewed:
+                used.add(key)
+                n3c += 1
+                rep.ob("R3c-reviewed-offset-arithmetic", key, True, f.file, st.get("ln", f.lo), "reviewed: " + reviewed[key])
+            else:
+                rep.ob("R3c-reviewed-offset-arithmetic", key, False, f.file, st.get("ln", f.lo),
+                       f"offset arithmetic `a + b` in the lexer where b is not the width of the character at a ({why}): adding a constant, the length of another string or "
+                       "the width of another character is a char boundary only if the text at `a` is known to have exactly that width; not in spec/c16_offsets.txt")
+    stale = sorted(set(reviewed) - used)
+    rep.ob("R3c-reviewed-table-is-current", "spec/c16_offsets.txt", not stale, "spec/c16_offsets.txt", 0, f"reviewed entries that match no site any more: {stale}")
+    rep.floor("R3b-width-belongs-to-the-character-at-the-start", 9, n3b)
 
     # ---- R4 callers of lex_commented ------------------------------------------------------------------------------
     lc = G.fn("sway_parse::token::lex_commented")
